@@ -450,14 +450,21 @@ def make_prog(cfg):
                             if isinstance(v_, torch.Tensor):
                                 tot += v_.nelement() * v_.element_size()
                     rec['actual_total'] = tot
-                elif op in ('v1', 'v0'):
-                    sd = p.state_dict(include_factors=(op == 'v1'))
+                elif op in ('v1', 'v0', 'Y'):
+                    # 'Y': a full round trip on the LIVE preconditioner (state with factors taken and loaded straight back,
+                    # compute_inverses=False): pending batch statistics, factors and second-order data all stay as they are
+                    sd = p.state_dict(include_factors=(op != 'v0'))
                     rec['steps'] = sd['steps']
                     rec['keys'] = sorted(k for k in sd if k != 'layers')
                     if 'layers' in sd:
                         rec['factors'] = [(sd['layers'][n]['A'], sd['layers'][n]['G']) for n in names]
                         rec['factors'] = [(None if a is None else a.clone().to(DT), None if g is None else g.clone().to(DT))
                                           for a, g in rec['factors']]
+                    if op == 'Y':
+                        import warnings as _w
+                        with _w.catch_warnings():
+                            _w.simplefilter('ignore')
+                            p.load_state_dict(sd, compute_inverses=False)
                 elif op == 'k':
                     # keep the state in memory (NOT copied) while training goes on
                     state['kept'] = p.state_dict()
@@ -557,6 +564,8 @@ def model_line(cfg, rr):
             ops.append('h:' + hyper_str(h, sep='/').replace('/', '%').replace('%c:', '/c:').replace('%f:', '/f:'))
         elif op == 'X':
             ops.append('f0')      # a no-op of the state machine, like an eval-mode pass
+        elif op == 'Y':
+            ops.append('v1')      # reads the factors (waits for their futures) like state_dict(); the load changes nothing
         else:
             ops.append(op)
     es = 8
@@ -775,6 +784,7 @@ def compare(ctx, cfg, rr, mo, tol=2e-3, streams=('trace', 'grads', 'ranks', 'mem
             ih = ''.join('1' if h else '0' for h in rr.res[r]['holds'])
             ctx.compare('precond-holds', dict(case, rank=r), mh, ih)
     for i, (op, mout) in enumerate(zip(cfg.ops, outs)):
+        op = 'v1' if op == 'Y' else op
         recs = [rr.res[r]['ops'][i] for r in range(W)]
         if op == 's' and mout.startswith('S '):
             m = re.match(r'S steps=(\d+) eq=(\d) g=(.*)$', mout)
